@@ -85,30 +85,36 @@ def run_check(prop: str, tier: str, runs=None, workers=None, budget_s=None, opts
     results = []
     exhausted = False
     ctx = multiprocessing.get_context("fork")
-    with cf.ProcessPoolExecutor(max_workers=workers, mp_context=ctx, initializer=_worker_init, initargs=(CHECKS[prop],)) as pool:
-        futs = [pool.submit(_worker, t) for t in tasks]
-        try:
-            for f in futs:
-                left = cfg["budget_s"] - (time.monotonic() - t0)
-                try:
-                    results.extend(f.result(timeout=max(left, 0.01) if not exhausted else 0.01))
-                except cf.TimeoutError:
-                    exhausted = True
-                    f.cancel()
-                except cf.process.BrokenProcessPool:
-                    results.append({"index": -1, "seed": 0, "harness": ["HARNESS-ERROR worker pool broke (a worker died)"]})
-                    break
-        finally:
-            for f in futs:
+    pool = cf.ProcessPoolExecutor(max_workers=workers, mp_context=ctx, initializer=_worker_init, initargs=(CHECKS[prop],))
+    futs = [pool.submit(_worker, t) for t in tasks]
+    procs = list((getattr(pool, "_processes", None) or {}).values())
+    try:
+        for f in futs:
+            left = cfg["budget_s"] - (time.monotonic() - t0)
+            try:
+                results.extend(f.result(timeout=max(left, 0.01) if not exhausted else 0.01))
+            except cf.TimeoutError:
+                exhausted = True
                 f.cancel()
-            # do not wait for stragglers past the budget
-            pool.shutdown(wait=not exhausted, cancel_futures=True)
-            if exhausted:
-                for p in list(getattr(pool, "_processes", {}).values()):
-                    try:
-                        p.kill()
-                    except Exception:  # noqa: BLE001
-                        pass
+            except cf.CancelledError:
+                pass
+            except cf.process.BrokenProcessPool:
+                results.append({"index": -1, "seed": 0, "harness": ["HARNESS-ERROR worker pool broke (a worker died)"]})
+                break
+    finally:
+        for f in futs:
+            f.cancel()
+        if exhausted:
+            # the soft wall budget is used up: report what was completed, do not wait for stragglers
+            procs = list((getattr(pool, "_processes", None) or {}).values()) or procs
+            pool.shutdown(wait=False, cancel_futures=True)
+            for p in procs:
+                try:
+                    p.kill()
+                except Exception:  # noqa: BLE001
+                    pass
+        else:
+            pool.shutdown(wait=True, cancel_futures=True)
     results.sort(key=lambda r: r["index"])
     merged = merge(mod, results)
     merged["budget_exhausted"] = exhausted
